@@ -234,3 +234,35 @@ Example restores_example :
   map o_get_run (run_ops {| run := false; frames := [] |} (OEnter :: body ++ [OExit ExitNormal]))
   = [false; true; false; true; true; false; false].
 Proof. split; reflexivity. Qed.
+
+(** ** Managers created ahead of use and the decorator form *)
+
+Lemma create_noop_l s : xstep s XCreate = (s, Done).
+Proof. reflexivity. Qed.
+
+Lemma call_decorated_restores_l s :
+  fst (xstep s XCallDecorated) = s /\ snd (xstep s XCallDecorated) = Done /\ inside_decorated s = false.
+Proof. destruct s as [r fs]; cbn. repeat split. Qed.
+
+(** Dropping every creation step changes neither the states reached nor what is observed after
+    the remaining steps. *)
+Fixpoint erase_creates (ops : list xop) : list xop :=
+  match ops with
+  | [] => []
+  | XCreate :: r => erase_creates r
+  | o :: r => o :: erase_creates r
+  end.
+
+Lemma erase_creates_state_l : forall ops s, final_xstate s (erase_creates ops) = final_xstate s ops.
+Proof.
+  induction ops as [|o ops IH]; intros s; [reflexivity|].
+  destruct o as [b| |]; cbn [erase_creates final_xstate]; try apply IH.
+Qed.
+
+Lemma base_ops_embed_l : forall ops s,
+  run_xops s (map XBase ops) = run_ops s ops /\ final_xstate s (map XBase ops) = final_state s ops.
+Proof.
+  induction ops as [|o ops IH]; intros s; [split; reflexivity|].
+  cbn [map run_xops run_ops final_xstate final_state xstep].
+  destruct (step s o) as [s' oc] eqn:E. cbn [fst]. destruct (IH s') as [A B]. rewrite A, B. split; reflexivity.
+Qed.
